@@ -70,6 +70,7 @@ type rollbackMitigation struct {
 	observeCloseDoneCh     chan struct{}
 	persistSeqNoDispatcher models.PersistSeqNoDispatcher
 	vbIds                  []uint16
+	persistedSeqNosLock    sync.Mutex
 	activeGroupID          int
 	configWatchRunning     bool
 	closed                 bool
@@ -334,6 +335,9 @@ func (r *rollbackMitigation) observe(vbID uint16, replica int, groupID int, vbUU
 		if len(replicas) > replica {
 			// publish events only if the state is outdated, to not generate unnecessary events
 			if replicas[replica].IsOutdated(result) {
+				// replies of different nodes are handled on different connections concurrently
+				r.persistedSeqNosLock.Lock()
+
 				replicas[replica].SetSeqNo(result.PersistSeqNo)
 				replicas[replica].SetVbUUID(result.VbUUID)
 
@@ -341,6 +345,8 @@ func (r *rollbackMitigation) observe(vbID uint16, replica int, groupID int, vbUU
 					VbID:  vbID,
 					SeqNo: r.getMinSeqNo(vbID),
 				})
+
+				r.persistedSeqNosLock.Unlock()
 			}
 
 			if vbUUID != result.VbUUID {
